@@ -51,3 +51,257 @@ def _from_str_approx(inp):
 def _nstr_long(inp):
     n = int(inp.get("n", 0))
     return int(inp.get("bc", 0)) > int((n + 3) * 3.3219280948873626) + 10
+# ---- C11 (precision restore): inputs are produced by harness/props/C11.py::_failing ---------------------------------
+def _c11_changed(inp):
+    return list(inp["before"]) != list(inp["after"])
+
+
+@predicate("c11_restored_via_dps")
+def _c11_restored_via_dps(inp):
+    """normal return, dps unchanged, prec changed: the function saved/restored dps instead of prec"""
+    return (inp["fault"] == "none" and inp["outcome"] == "ok" and inp["after"][1] == inp["before"][1]
+            and inp["after"][0] != inp["before"][0])
+
+
+@predicate("c11_exception_leaves_prec_raised")
+def _c11_exception_leaves_prec_raised(inp):
+    """an injected exception (callback or libmp primitive) propagates and the raised working precision stays"""
+    return (inp["fault"] in ("callback", "libmp") and str(inp["outcome"]).startswith("injected")
+            and inp["after"][0] > inp["before"][0])
+
+
+@predicate("c11_libmp_fault_leaves_prec_changed")
+def _c11_libmp_fault(inp):
+    """only an exception from inside the library (not from user code) exposes the missing try/finally"""
+    return inp["fault"] == "libmp" and str(inp["outcome"]).startswith("injected") and _c11_changed(inp)
+
+
+@predicate("c11_own_exception_leaves_prec_changed")
+def _c11_own_exception(inp):
+    """the function raises (its own NotImplementedError, or an injected fault) and leaves its internal precision"""
+    o = str(inp["outcome"])
+    return (o == "exc:NotImplementedError" or o.startswith("injected")) and _c11_changed(inp)
+
+
+@predicate("c11_manager_reentered")
+def _c11_manager_reentered(inp):
+    return inp["entry"] == "extraprec_reentrant" and _c11_changed(inp)
+def _case_x(inp):
+    c = inp["case"]
+    return c, int(c["x"][0]), int(c["x"][1])
+
+
+@predicate("acosh_arg_within_2^-34_of_one")
+def _acosh_near_one(inp):
+    """libelefun.mpf_acosh adds x + sqrt(x^2-1) at prec+15 bits: for 1 < x < 1 + 2^-34 the small term loses more
+    than 4 bits beyond the guard bits (violations observed from x - 1 = 2^-37 downwards, at every precision)."""
+    c, m, e = _case_x(inp)
+    if c.get("fun") != "acosh" or m <= 0 or e >= 0:
+        return False
+    one = 1 << -e
+    return one < m and (m - one) << 34 < one
+
+
+@predicate("log_arg_in_quarter_half_binade_close_to_quarter")
+def _log_quarter(inp):
+    """libelefun.mpf_log tests `abs_mag <= 1` for "x close to 1", which also admits mag = -1 (1/4 <= x < 1/2); for
+    x = (1+eps)/4 with bc - bitcount(man - 2^(bc-1)) > prec + 20 it returns ~eps instead of log x."""
+    c, m, e = _case_x(inp)
+    if c.get("fun") not in ("ln", "log") or m <= 0:
+        return False
+    while not m & 1:
+        m >>= 1
+        e += 1
+    bc = m.bit_length()
+    if e + bc != -1 or m == 1:
+        return False
+    t = m - (1 << (bc - 1))
+    return bc - t.bit_length() > int(c["prec"]) + 20
+
+
+@predicate("pow_fractional_exponent_result_exponent_above_2^13")
+def _pow_big(inp):
+    """libelefun.mpf_pow computes exp(t*log(s)) with log(s) at prec+10 bits (and sqrt(s)^n for half-integers with sqrt at
+    prec+10 bits): the relative error is about |t*ln s|*2^-(prec+10), above 2^(4-p) once |t*ln s| exceeds ~2^14."""
+    import math
+    c = inp["case"]
+    if c.get("fun") != "pow" or "y" not in c:
+        return False
+    mx, ex = int(c["x"][0]), int(c["x"][1])
+    my, ey = int(c["y"][0]), int(c["y"][1])
+    if mx <= 0 or my == 0:
+        return False
+    while not my & 1:
+        my >>= 1
+        ey += 1
+    if ey >= 0:
+        return False                                   # integer exponent: mpf_pow_int, a different routine
+    from fractions import Fraction
+    d = Fraction(mx) * Fraction(2) ** ex - 1
+    if abs(d) < Fraction(1, 2):
+        lnx = math.log1p(float(d))                      # no cancellation for bases close to 1
+    else:
+        lnx = math.log(mx) + ex * math.log(2.0)
+    lny = math.log(abs(my)) + ey * math.log(2.0)
+    return lnx != 0 and lny + math.log(abs(lnx)) >= 13 * math.log(2.0)
+
+
+@predicate("nthroot_uses_pow_branch")
+def _nthroot_pow(inp):
+    """libelefun.mpf_nthroot computes x**(1/n) through mpf_pow when n > 20 and (n >= 20000 or prec < 233 + 28.3 n^0.62):
+    roots of perfect n-th powers are then not exact."""
+    c = inp["case"]
+    n, prec = int(c.get("n", 0)), int(c["prec"])
+    return c.get("fun") == "root" and n > 20 and (n >= 20000 or prec < int(233 + 28.3 * n ** 0.62))
+
+
+@predicate("nthroot_newton_branch_directed_rounding")
+def _nthroot_directed(inp):
+    """libelefun.mpf_nthroot (Newton branch, also behind mpf_cbrt): with a directed rounding mode the fixed-point root of an
+    exact n-th power can come out one unit off in the rounding direction (about 0.4% of perfect powers); exact in mode n."""
+    c = inp["case"]
+    return c.get("fun") in ("root", "cbrt") and c.get("rnd") in ("f", "c", "d", "u") and int(c.get("n", 0)) >= 3
+
+
+# ---- C43 (fp context) -------------------------------------------------------------------------------------------
+
+def _c43(inp):
+    c = inp["case"]
+    x = complex(eval(c["x"], {"__builtins__": {}}, {"inf": float("inf"), "nan": float("nan")})) if "x" in c else None
+    return c, x
+
+
+@predicate("fp_inverse_hyperbolic_missing")
+def _fp_missing(inp):
+    """fp has no asinh / acosh / atanh; acoth, asech, acsch exist but raise AttributeError because they call them"""
+    return inp["case"].get("fun") in ("asinh", "acosh", "atanh", "acoth", "asech", "acsch")
+
+
+@predicate("fp_inverse_trig_conjugate_branch_outside_real_domain")
+def _fp_conj(inp):
+    """math2.asin/acos use cmath's value on the cut (imaginary part of the opposite sign to mp's) for real x > 1;
+    asec/acsc inherit it for real 0 < x < 1"""
+    c, x = _c43(inp)
+    if x is None or x.imag != 0:
+        return False
+    if c.get("fun") in ("asin", "acos"):
+        return x.real > 1
+    if c.get("fun") in ("asec", "acsc"):
+        return 0 < x.real < 1 or (x.real == 0 and False)
+    return False
+
+
+@predicate("fp_log_of_zero_raises")
+def _fp_log0(inp):
+    c, x = _c43(inp)
+    return c.get("fun") in ("log", "ln") and x == 0
+
+
+@predicate("fp_cbrt_is_pow_one_third")
+def _fp_cbrt(inp):
+    """math2.cbrt is x**(1./3): the rounded exponent costs |ln x| * 1.85e-17 relative, above 2^-48 for |log2 |x|| > ~270"""
+    import math
+    c, x = _c43(inp)
+    return c.get("fun") == "cbrt" and x != 0 and abs(math.log2(abs(x))) >= 200
+
+
+@predicate("fp_sinpi_cospi_reduced_argument_times_pi")
+def _fp_sinpi(inp):
+    """math2._sinpi/_cospi multiply the reduced argument by the double pi: real results smaller than 2^-3 in magnitude lose
+    relative accuracy; complex arguments with |Im| > 8 lose |pi*Im| * 2^-53"""
+    c, x = _c43(inp)
+    if c.get("fun") not in ("sinpi", "cospi"):
+        return False
+    w = complex(eval(c["fp"], {"__builtins__": {}}, {}))
+    return abs(x.imag) > 8 or abs(w) < 0.125
+
+
+@predicate("fp_trig_libm_huge_argument_near_multiple_of_half_pi")
+def _fp_libm(inp):
+    """libm (glibc 2.36 here) at |x| >= 2^60 extremely close to a multiple of pi/2 (result below 2^-40 or above 2^40)"""
+    c, x = _c43(inp)
+    if c.get("fun") not in ("sin", "cos", "tan", "cot", "sec", "csc") or x.imag != 0 or abs(x.real) < 2.0 ** 20:
+        return False
+    w = complex(eval(c["fp"], {"__builtins__": {}}, {}))
+    return abs(w) < 2.0 ** -30 or abs(w) > 2.0 ** 30
+
+
+@predicate("fp_power_negative_base_large_exponent")
+def _fp_pow(inp):
+    c = inp["case"]
+    if c.get("fun") != "power":
+        return False
+    a = float(c["x"]); b = float(c["y"])
+    return a < 0 and abs(b) >= 8
+
+
+@predicate("mp_atan_small_imaginary_argument")
+def _mp_atan(inp):
+    """libmpc.mpc_atan loses all accuracy in the imaginary part for tiny complex arguments with a non-zero imaginary part
+    (mp.atan(1e-20j) = 8.47e-21j at 53 bits)"""
+    c, x = _c43(inp)
+    return c.get("fun") == "atan" and x.imag != 0 and abs(x) < 2.0 ** -20
+
+
+@predicate("fp_complex_argument_on_branch_cut")
+def _fp_cut(inp):
+    """complex argument with a zero real or imaginary part lying on a branch cut: cmath follows the sign of the zero
+    (and continuity conventions of C99), mp has no signed zero"""
+    c, x = _c43(inp)
+    if c.get("class") != "complex" or x is None:
+        return False
+    return (x.real == 0 or x.imag == 0) and c.get("fun") in ("asin", "acos", "atan", "acot", "asec", "acsc", "log", "ln", "sqrt", "cbrt")
+
+
+@predicate("fp_derived_inverse_function_ill_conditioned_composition")
+def _fp_derived(inp):
+    """fp's asec/acsc/acot/acoth/asech/acsch are compositions f(1/x) in double arithmetic: 1/x is rounded before the inverse
+    function is applied, which is ill-conditioned for |x| within 2^-6 of 1 (asec, acsc, asech, acoth), for x within 2^-6
+    of +-i (acot), and overflows for subnormal x"""
+    c, x = _c43(inp)
+    f = c.get("fun")
+    if f not in ("asec", "acsc", "acot", "acoth", "asech", "acsch") or x is None:
+        return False
+    if x != 0 and abs(x) < 2.0 ** -1021:
+        return True
+    if f == "acot":
+        return abs(x - 1j) < 2.0 ** -6 or abs(x + 1j) < 2.0 ** -6
+    return abs(abs(x) - 1) < 2.0 ** -6
+
+
+@predicate("mp_asin_acos_complex_near_branch_point")
+def _mp_acos_bp(inp):
+    """libmpc.acos_asin at 53 bits for a complex argument within 2^-20 of +-1 with a tiny imaginary part: the mp value (not
+    the fp value) is off by more than 2^-48 (judged against mp at 200 bits)"""
+    c, x = _c43(inp)
+    return c.get("fun") in ("acos", "asin") and x is not None and x.imag != 0 and min(abs(x - 1), abs(x + 1)) < 2.0 ** -20
+
+
+@predicate("mp_asin_acos_tiny_complex_argument")
+def _mp_asin_tiny(inp):
+    """libmpc.acos_asin at 53 bits drops the (much smaller) second component of a tiny complex argument:
+    mp.asin(4e-123 - 9.7e-31j) = 4e-123 + 0j"""
+    c, x = _c43(inp)
+    return c.get("fun") in ("asin", "acos") and x is not None and x.imag != 0 and x.real != 0 and abs(x) < 2.0 ** -20
+
+
+@predicate("pow_base_hits_log_quarter_branch")
+def _pow_log_quarter(inp):
+    """mpf_pow calls mpf_log(s, prec+10): the mpf_log defect for s = (1+eps)/4 (see log_arg_in_quarter_half_binade_close_to_quarter)
+    propagates to s**t"""
+    c = inp["case"]
+    if c.get("fun") not in ("pow", "powm1"):
+        return False
+    m, e = int(c["x"][0]), int(c["x"][1])
+    if m <= 0:
+        return False
+    while not m & 1:
+        m >>= 1
+        e += 1
+    bc = m.bit_length()
+    if e + bc != -1 or m == 1:
+        return False
+    t = m - (1 << (bc - 1))
+    return bc - t.bit_length() > int(c["prec"]) + 30
+
+
